@@ -30,6 +30,11 @@ Proof. formula. Qed.
 Lemma avail_unlimited a h : available_connections 0 0 a h = 1%Z.
 Proof. formula. Qed.
 
+Lemma wait_checks_closed_true : wait_checks_closed = true.
+Proof. reflexivity. Qed.
+Lemma close_clears_per_host_true : close_clears_per_host = true.
+Proof. reflexivity. Qed.
+
 Lemma must_wait_false a : connect_must_wait a = false -> (0 < a)%Z.
 Proof. unfold connect_must_wait; lia. Qed.
 Lemma must_wait_true a : connect_must_wait a = true -> (a < 1)%Z.
@@ -170,17 +175,17 @@ Proof.
     destruct (take_idle k (idle s)) as [x|] eqn:Ei.
     + injection H as <-. simpl in G. destruct G as [G|G]; [congruence|].
       apply proceed_within; assumption.
-    + destruct (connect_must_wait (avail c s k)) eqn:Ew; injection H as <-.
-      * eapply within_same; [| |exact W]; reflexivity.
-      * apply proceed_within; [exact W|]. apply must_wait_false. exact Ew.
+    + destruct (connect_must_wait (avail c s k)) eqn:Ew.
+      * destruct (refuse_wait s); injection H as <-; (eapply within_same; [| |exact W]; reflexivity).
+      * injection H as <-. apply proceed_within; [exact W|]. apply must_wait_false. exact Ew.
   - (* EResume *)
     destruct (get_pc (pcs s) t) as [| k f | | | | |]; try discriminate.
     destruct f; try discriminate.
     + set (s1 := with_woken s (filter (fun x => negb (x =? t)) (woken s))) in *.
       assert (W1 : within c s1) by (eapply within_same; [| |exact W]; reflexivity).
-      destruct (wait_slot_found (avail c s1 k)) eqn:Ef; injection H as <-.
-      * apply proceed_within; [exact W1|]. apply slot_found_true. exact Ef.
-      * eapply within_same; [| |exact W1]; reflexivity.
+      destruct (wait_slot_found (avail c s1 k)) eqn:Ef.
+      * injection H as <-. apply proceed_within; [exact W1|]. apply slot_found_true. exact Ef.
+      * destruct (refuse_wait s1); injection H as <-; (eapply within_same; [| |exact W1]; reflexivity).
     + injection H as <-. eapply within_same; [| |exact W]; reflexivity.
     + set (s1 := with_woken s (filter (fun x => negb (x =? t)) (woken s))) in *.
       assert (W1 : within c s1) by (eapply within_same; [| |exact W]; reflexivity).
@@ -210,7 +215,8 @@ Proof.
       destruct (force_close c || cl); (eapply within_same; [| |exact W1]; reflexivity).
   - (* EClose *)
     destruct (closed s); injection H as <-; [exact W|].
-    destruct W as [HT HH]. split; simpl; [lia|exact HH].
+    destruct W as [HT HH]. split; cbn [acquired hostacq length]; [lia|].
+    destruct close_clears_per_host; try exact HH; intros Hl k; unfold count_host; cbn [filter length]; lia.
 Qed.
 
 Lemma within_init c : within c init.
@@ -249,12 +255,14 @@ Proof.
   unfold no_idle. intros F I H.
   destruct e as [t k|t order|t|t|t order|t cl order|]; simpl in H.
   - destruct (get_pc (pcs s) t); try discriminate. rewrite I in H. simpl in H.
-    destruct (connect_must_wait (avail c s k)); injection H as <-; [exact I|].
-    unfold proceed. rewrite I. simpl. exact I.
+    destruct (connect_must_wait (avail c s k)).
+    { destruct (refuse_wait s); injection H as <-; exact I. }
+    injection H as <-. unfold proceed. rewrite I. simpl. exact I.
   - destruct (get_pc (pcs s) t) as [| k f | | | | |]; try discriminate.
     destruct f; try discriminate.
-    + destruct (wait_slot_found _); injection H as <-; [|exact I].
-      unfold proceed. simpl. rewrite I. simpl. exact I.
+    + destruct (wait_slot_found _).
+      * injection H as <-. unfold proceed. simpl. rewrite I. simpl. exact I.
+      * destruct (refuse_wait _); injection H as <-; exact I.
     + injection H as <-. exact I.
     + destruct (release_waiter c _ order) as [s2|] eqn:Er; [|discriminate]. injection H as <-.
       unfold release_waiter in Er. destruct (covers order _); [|discriminate]. injection Er as <-.
